@@ -37,7 +37,10 @@ Count(f, bits) == Cardinality({b \in bits : Has(f, b)})
 
 OTypes == {OSTR, OBOOL, OINT, OFLT}
 ATypes == {ASTR, ABOOL, AINT, AFLT}
-DefaultKinds == {"none", "scalar", "list"}
+\* what is passed as default: nothing, a scalar, a list - or a value Python treats as false although it is a default
+DefaultKinds == {"none", "scalar", "list", "falsy", "emptylist"}
+Given(d) == d # "none"
+NormD(d) == IF d = "falsy" THEN "scalar" ELSE IF d = "emptylist" THEN "list" ELSE d
 
 \* ------------------------------------------------------------------ P-layer: flag words
 \* documented contradictions of an option
@@ -58,10 +61,10 @@ OptValueless(f, hasShort) == Has(OptNormal(f, hasShort), NOV)
 OptMulti(f) == Has(f, MULV)
 \* defaults: a value-less option has none; a multi-valued one has a list
 OptDefaultValid(f, hasShort, d) ==
-  /\ (OptValueless(f, hasShort) => d = "none")
-  /\ (OptMulti(f) => d \in {"none", "list"})
+  /\ (OptValueless(f, hasShort) => ~Given(d))
+  /\ (OptMulti(f) => NormD(d) \in {"none", "list"})
 OptValid(f, hasShort, d) == OptFlagsValid(f, hasShort) /\ OptDefaultValid(f, hasShort, d)
-OptDefaultKind(f, d) == IF OptMulti(f) THEN "list" ELSE d
+OptDefaultKind(f, d) == IF OptMulti(f) THEN "list" ELSE NormD(d)
 
 \* command options know only the name preference
 CmdOptValid(f, hasShort) == ~(Has(f, PL) /\ Has(f, PS)) /\ (Has(f, PS) => hasShort)
@@ -72,9 +75,9 @@ ArgNormal(f) ==
   LET f1 == IF Has(f, AREQ) \/ Has(f, AOPT) THEN f ELSE Set(f, AOPT)
   IN IF Count(f1, ATypes) = 0 THEN Set(f1, ASTR) ELSE f1
 ArgValid(f, d) == /\ ArgFlagsValid(f)
-                  /\ (Has(f, AREQ) => d = "none")                  \* a required argument takes no default
-                  /\ (Has(f, AMUL) => d \in {"none", "list"})
-ArgDefaultKind(f, d) == IF Has(f, AMUL) THEN "list" ELSE d
+                  /\ (Has(f, AREQ) => ~Given(d))                  \* a required argument takes no default, whatever its value
+                  /\ (Has(f, AMUL) => NormD(d) \in {"none", "list"})
+ArgDefaultKind(f, d) == IF Has(f, AMUL) THEN "list" ELSE NormD(d)
 
 \* ------------------------------------------------------------------ P-layer: names (sequences of characters)
 Letters == {"a", "Z"}
@@ -137,9 +140,9 @@ SetDefault ==
          takes == IF kind = "opt" THEN ~Has(nflags, NOV) ELSE Has(nflags, AOPT)
          forbidden == IF kind = "opt" THEN Has(nflags, NOV) ELSE Has(nflags, AREQ)
          d0 == IF multi THEN "list" ELSE "none"
-     IN IF takes \/ dflt # "none"
-        THEN IF forbidden \/ (multi /\ dflt = "scalar") THEN Reject
-             ELSE /\ dkind' = (IF multi /\ dflt = "none" THEN "list" ELSE dflt)
+     IN IF takes \/ dflt # "none"                       \* "default is not None": 0, "" and [] are defaults too
+        THEN IF forbidden \/ (multi /\ NormD(dflt) = "scalar") THEN Reject
+             ELSE /\ dkind' = (IF multi /\ dflt = "none" THEN "list" ELSE NormD(dflt))
                   /\ pc' = "accepted" /\ UNCHANGED <<kind, flags, hasShort, dflt, nflags>>
         ELSE dkind' = d0 /\ pc' = "accepted" /\ UNCHANGED <<kind, flags, hasShort, dflt, nflags>>
 
